@@ -1182,6 +1182,78 @@ fn check_xf(cx: &mut Cx, rng: &mut Rng, name: &str, used: &mut Vec<&'static str>
             }
         }
     }
+    // extreme magnitudes: scale factors far outside [0.1, 10] (a model in
+    // micrometres placed in a scene in kilometres), alone or as a nest of
+    // two scales (which the builder flattens into one matrix). The sample
+    // points are images of ordinary points of the argument, so T^-1 p is
+    // an ordinary point and only the factors are extreme
+    if (name == "Scale" || name == "ScaleUniform") && rng.chance(0.5) {
+        let extreme = |rng: &mut Rng, lo: f64, hi: f64| -> f32 {
+            let m = rng.uniform(lo.ln(), hi.ln()).exp();
+            let m = if rng.chance(0.5) { m } else { 1.0 / m };
+            (if rng.chance(0.3) { -m } else { m }) as f32
+        };
+        let make = |rng: &mut Rng, uniform: bool, lo: f64, hi: f64| -> Xf {
+            if uniform {
+                Xf::ScaleUniform(extreme(rng, lo, hi))
+            } else if rng.chance(0.5) {
+                // the same order of magnitude on every axis
+                let k = extreme(rng, lo, hi);
+                Xf::Scale([k, k * rng.uniform(0.5, 2.0) as f32, -k * rng.uniform(0.5, 2.0) as f32])
+            } else {
+                Xf::Scale([extreme(rng, lo, hi), extreme(rng, lo, hi), extreme(rng, lo, hi)])
+            }
+        };
+        let outer = make(rng, name == "ScaleUniform", 1e2, 1e9);
+        let inner_uniform = rng.chance(0.5);
+        let inner = if rng.chance(0.5) { Some(make(rng, inner_uniform, 1e1, 1e5)) } else { None };
+        let arg = match &inner {
+            Some(i) => i.apply(s.tree.clone()),
+            None => s.tree.clone(),
+        };
+        let edesc = json!({"outer": wrap(outer.name(), outer.desc(), vec![]), "inner": inner.as_ref().map(|i| wrap(i.name(), i.desc(), vec![])), "shape": s.desc.clone()});
+        let ne = ev.import(&outer.apply(arg));
+        cx.st.inc("extreme_scale_constructions");
+        for _ in 0..24 {
+            let base = point(rng, 5.0);
+            let fwd = |b: P3| {
+                let b = match &inner {
+                    Some(i) => i.map(b, false),
+                    None => b,
+                };
+                outer.map(b, false)
+            };
+            let p = round32(fwd(base));
+            if !p.iter().all(|c| c.is_finite() && (*c == 0.0 || c.abs() > 1e-30)) {
+                cx.skip("extreme_scale_out_of_f32_range");
+                continue;
+            }
+            let q = {
+                let b = outer.map(p, true);
+                match &inner {
+                    Some(i) => i.map(b, true),
+                    None => b,
+                }
+            };
+            let got = ev.at(ne, p);
+            let (want, spread) = ev.around(ns, q, 1.0);
+            match value_ok(got, want, spread) {
+                None => cx.skip("ill_conditioned"),
+                Some(ok) => {
+                    cx.judged();
+                    cx.st.inc("extreme_scale_points");
+                    if !ok {
+                        cx.bad(
+                            &format!("{name}:extreme_factor_value"),
+                            format!("scale by extreme factors: T(s)(p) = {got:e} but s(T^-1 p) = {want:e}"),
+                            json!({"construction": edesc, "p": p, "model_T_inverse_p": q, "fidget_value_at_p": got,
+                                   "argument_value_at_T_inverse_p": want, "argument_spread_near_T_inverse_p": spread}),
+                        );
+                    }
+                }
+            }
+        }
+    }
     // step and repeat: the transformed shape T(s) is used bare and also,
     // as the same tree (shared allocation), inside a second application of
     // the same transform: union[T(union[s, T(s)]), T(s)] is the solid
